@@ -19,6 +19,8 @@ RULES = {
     'C14.a': 'the message-flow graph over (role, variant) for settled roles has no cycle',
     'C14.b': 'no arm can forward to the primary twice on one path (its own forward plus the conflict resolver\'s)',
     'C14.c': 'the Secondary arm of the fan-out sends nothing; the forwarder sends to the Primary member only',
+    'C14.e': 'at most one cluster member is Primary: every store of a possibly-Primary role into ClusterState.members (insert or '
+             'field assignment) happens in a function that, under a role == Primary test, first demotes every existing member',
     'C14.d': 'register_pending_opp precedes the send of each fanned-out copy; the rp wrapper sends exactly one ack',
 }
 
@@ -63,6 +65,11 @@ def template_unversioned(P, f):
 
 
 def run(ck, m):
+    _run(ck, m)
+    single_primary(ck, m)
+
+
+def _run(ck, m):
     for k, v in RULES.items():
         ck.rule(k, v)
     P = m.prog
@@ -265,3 +272,70 @@ def run(ck, m):
     ck.ob('C14.d', 'dispatcher', 'rp-acks-once-then-dispatches', ok,
           'the rp wrapper sends one ack and then dispatches the inner command once' if ok else
           'rp wrapper: %d acknowledgements, %d re-dispatches' % (len(acks), len(redis)), d.loc(sw[1]['ReplicateRequest']))
+
+
+
+def single_primary(ck, m):
+    """C14.e — the forwarder sends to every member whose role is Primary (C14.c), so "at most one forward" needs "at most one
+    Primary member": sites that can store Primary must demote the others."""
+    from props.C07 import role_of_root, natural_loops
+    P = m.prog
+    CM = 'nundb::bo::ClusterMember'
+
+    def role_values(b, op):
+        names = set()
+        for r in origins(b, op):
+            names |= role_of_root(m, b, r)
+        return names
+
+    def stores(b):
+        """(block, set of role names that may be stored) for inserts of a ClusterMember / assignments to .role"""
+        out = []
+        for bi, t in b.calls():
+            if CM + '>::insert' in t['f'].get('dargs', '') and len(t['args']) > 2:
+                for r in origins(b, t['args'][2]):
+                    if r[0] == 'agg':
+                        rv = b.blocks[r[1]]['s'][r[2]]['r']
+                        if rv.get('adt') == CM and 'role' in rv.get('fields', []):
+                            out.append((bi, role_values(b, rv['ops'][rv['fields'].index('role')])))
+                    else:
+                        out.append((bi, {'?'}))
+        for bi, bl in enumerate(b.blocks):
+            if bl.get('cleanup'):
+                continue
+            for s in bl['s']:
+                if s['k'] == 'assign' and any(e[0] == 'f' and len(e) > 3 and e[2] == CM and e[3] == 'role' for e in s['l'].get('p', ())):
+                    rv = s['r']
+                    names = set()
+                    if rv['k'] == 'use':
+                        names = role_values(b, rv['o'])
+                    elif rv['k'] == 'agg':
+                        names = {rv.get('variant')}
+                    out.append((bi, names or {'?'}))
+        return out
+    n = 0
+    for b in P.user_bodies():
+        if b.id.startswith(('nundb::client::', 'nundb::command_line::')):
+            continue
+        st = stores(b)
+        may_primary = [(bi, names) for bi, names in st if names - {'Secoundary', 'StartingUp'}]
+        if not may_primary:
+            continue
+        n += 1
+        # demotion: inside a loop, under the true edge of `role == Primary`, a store whose role is the constant Secoundary
+        loops = natural_loops(b)
+        demote = False
+        for bi, t in b.calls():
+            if callee_decl(t) == 'std::cmp::PartialEq::eq' and 'ClusterRole' in t['f'].get('dargs', ''):
+                if not any('Primary' in role_of_root(m, b, r) for a in t['args'] for r in origins(b, a)):
+                    continue
+                for (s2, tt, ft) in core.bool_switches(b, bi):
+                    for sbi, names in st:
+                        if names == {'Secoundary'} and b.dominates(tt, sbi) and not b.dominates(ft, sbi) and any(sbi in body for h, body in loops):
+                            demote = True
+        ck.ob('C14.e', short(b.id), 'primary-store-demotes-others', demote,
+              'storing a Primary member first rewrites every existing member as Secondary' if demote else
+              '%s can give a member the Primary role (%s) without demoting the member that held it: the member table then has two Primary '
+              'entries and the forwarder sends every client write of a secondary to both' % (short(b.id), [sorted(x) for _, x in may_primary]),
+              b.loc(may_primary[0][0]))
+    ck.floor('C14.e', n, 1, 'functions that can store a Primary member')
